@@ -28,6 +28,8 @@ type ImplCmd struct {
 	server *exec.Cmd
 	port   int
 	genNow int64
+	// commands that went through Parse (impl_flags.go)
+	flagRoutes int
 	// the directory the server serves (root/src)
 }
 
@@ -359,6 +361,12 @@ func (m *ImplCmd) execCmd(tk []string) (obs string) {
 		return "bad-op"
 	}
 
+	if viaFlagsWanted(strings.Join(tk, " ")) {
+		if parsed, ok := viaFlags(cmd); ok {
+			cmd = parsed
+			m.flagRoutes++
+		}
+	}
 	readOnly := name == "view" || name == "viewraw" || name == "diff" || name == "sum" || name == "sumdiff"
 	var err error
 	var t0, t1 int64
